@@ -27,7 +27,7 @@ DIAG_KINDS = ["default", "zero", "one_int", "rand", "big"]
 CONST_KINDS = ["none", "sp_off_bc", "sp_on_bc", "coo_diag", "dense", "complex"]
 MTYPES = ["default", "csc_matrix", "csr_matrix", "coo_matrix", "csc_array", "csr_array"]
 X_KINDS = ["unif", "zeros_some", "all_zero", "all_one", "binary_int", "simp", "wide", "negmix", "f32"]
-CORNERS = ["plain", "aspect", "nu0", "nu049", "nu_neg", "int_sizes", "E_big", "E_tiny", "thin", "unit_sizes"]
+CORNERS = ["plain", "aspect", "nu0", "nu049", "nu_neg", "int_sizes", "E_big", "E_tiny", "thin", "unit_sizes", "micro"]
 
 RTOL = 1e-11   # reference-model equality (DESIGN section 3); measured on the unchanged tree: <= 2e-15
 
@@ -153,12 +153,19 @@ def draw_material(rng, corner, dim):
         E, rho, kappa = 2.1e11, 7.8e3, 4.0e2
     elif corner == "E_tiny":
         E, rho, kappa = 1e-6, 1e-9, 1e-7
+    elif corner == "micro":
+        # a MEMS part in SI units: micrometre elements, silicon, vacuum permittivity - element-matrix entries down to 1e-26
+        sizes = [float(v) for v in 10.0 ** rng.uniform(-6.5, -5.0, 3)]
+        E, rho, kappa = 1.3e11, 2330.0, 8.854e-12
     elif corner == "thin":
         sizes[2] = 1e-3 if dim == 2 else float(sizes[2])
     elif corner == "unit_sizes":
         sizes = None        # DomainDefinition defaults (1.0, 1.0, 1.0)
     plane = str(rng.choice(["strain", "stress"]))
-    return {"sizes": sizes, "E": E, "nu": nu, "plane": plane, "rho": rho, "kappa": kappa}
+    # the option is documented as "Plane-``strain``, plane-``stress``": every spelling containing the word selects that law
+    spell = str(rng.choice({"strain": ["strain", "strain", "plane-strain", "Plane strain", "plane_strain", "STRAIN"],
+                            "stress": ["stress", "stress", "plane-stress", "Plane stress", "plane_stress", "STRESS"]}[plane]))
+    return {"sizes": sizes, "E": E, "nu": nu, "plane": plane, "plane_spelling": spell, "rho": rho, "kappa": kappa}
 
 
 def draw_x(rng, kind, nel):
@@ -318,7 +325,7 @@ def make_module(pym, s, sx, opts):
     if s.kind == "general":
         return pym.AssembleGeneral(sx, domain=s.dom, element_matrix=s.ke_given, **kw)
     if s.kind == "stiffness":
-        return pym.AssembleStiffness(sx, domain=s.dom, e_modulus=m["E"], poisson_ratio=m["nu"], plane=m["plane"], **kw)
+        return pym.AssembleStiffness(sx, domain=s.dom, e_modulus=m["E"], poisson_ratio=m["nu"], plane=m.get("plane_spelling", m["plane"]), **kw)
     if s.kind == "mass":
         return pym.AssembleMass(sx, domain=s.dom, material_property=m["rho"], ndof=s.ndof, **kw)
     return pym.AssemblePoisson(sx, domain=s.dom, material_property=m["kappa"], **kw)
